@@ -14,7 +14,19 @@ def is_iterable(t: Type) -> bool:
 
 def _is_iterable_direct(t: Type) -> bool:
     "Is this type iterable?"
-    return getattr(t, "_name", None) == "Iterable" or getattr(t, "__name__", None) == "Iterable"
+    if getattr(t, "_name", None) == "Iterable" or getattr(t, "__name__", None) == "Iterable":
+        return True
+    # A stream / collection class of func_adl's own, given its item type (`MyColl[Jet]`), is a
+    # sequence of those items.
+    origin = get_origin(t)
+    return (
+        isinstance(origin, type)
+        and len(get_args(t)) == 1
+        and any(
+            c.__name__ == "ObjectStream" and c.__module__ == "func_adl.object_stream"
+            for c in origin.__mro__
+        )
+    )
 
 
 def get_inherited(t: Type) -> Type:
